@@ -19,7 +19,7 @@ RULE = ("exhaustive row CONTENTS (every letter assignment) x every w 1..5, total
         "length is below the window are outside the domain. Non-trivial = some row length in {0, w-1, w, w+1}, or w = 1, "
         "or >= 2 rows")
 EXHAUSTIVE = {"quick": False, "thorough": False}
-MODEL_OPS = {"kmers", "minimizers", "match", "match_same", "pwm", "count", "kenc"}
+MODEL_OPS = {"kmers", "minimizers", "match", "match_same", "pwm", "pwm_old", "count", "count_add", "kenc", "regex", "fixedregex"}
 PARALLEL = 16
 ASSUMPTIONS = [
     "npstructures: RaggedArray(flat, lengths, safe_mode=False)[..., :e] addresses row i as flat[start_i : start_i + len(row_i[:e])] "
@@ -183,6 +183,18 @@ def _input(c, ascii_ok=False):
     return as_encoded_array(texts, _enc(alpha))
 
 
+def _pattern_text(alpha, items):
+    out = []
+    for it in items:
+        if it[0] == 0:
+            out.append(".")
+        elif it[0] == 1:
+            out.append(alpha[it[1]] if len(it) == 2 else "[" + "".join(alpha[x] for x in it[1:]) + "]")
+        else:
+            out.append(".{%s,%d}" % ("" if (it[1] == 0 and it[2] % 2 == 1) else it[1], it[2]))
+    return "".join(out)
+
+
 def _ragged_out(r, flat, conv=int):
     if flat:
         return [[conv(x) for x in np.asarray(r).ravel()]]
@@ -220,13 +232,64 @@ def _call(c):
         alpha = c["alpha"]
         enc = _enc(alpha)
         pat = as_encoded_array("".join(alpha[x] for x in c["pat"]), enc)
-        r = StringMatcher(pat, enc).rolling_window(_input(c), mode="same")
+        if c.get("ws"):       # window size handed over explicitly
+            r = StringMatcher(pat, enc).rolling_window(_input(c), window_size=len(c["pat"]), mode="same")
+        else:
+            r = StringMatcher(pat, enc).rolling_window(_input(c), mode="same")
         return r, (lambda o: {"rows": _ragged_out(o, flat, bool)})
+    if op in ("regex", "fixedregex"):
+        from bionumpy.sequence.string_matcher import RegexMatcher, FixedLenRegexMatcher
+        alpha = c["alpha"]
+        cls = RegexMatcher if op == "regex" else FixedLenRegexMatcher
+        r = cls(_pattern_text(alpha, c["items"]), encoding=_enc(alpha)).rolling_window(_input(c))
+        return r, (lambda o: {"rows": _ragged_out(o, flat, bool)})
+    if op == "pwm_old":
+        from bionumpy.sequence.position_weight_matrix import PWM, get_motif_scores_old, PositionWeightMatrix
+        alpha = c["alpha"]
+        m = np.array([[_unbits(b) for b in row] for row in c["matrix"]], dtype=float).T
+        if c.get("entry") == "class":
+            r = PositionWeightMatrix(PWM(m, alpha)).rolling_window(_input(c))
+        else:
+            r = get_motif_scores_old(_input(c, ascii_ok=True), PWM(m, alpha))
+        return r, (lambda o: {"rows": _ragged_out(o, flat, _bits)})
+    if op == "count_add":
+        from bionumpy.encoded_array import as_encoded_array
+        alpha = c["alpha"]
+        parts = [count_kmers(as_encoded_array(_texts(alpha, rows), _enc(alpha)), c["k"]) for rows in c["parts"]]
+        how = c.get("how", "add")
+        if how == "sum":
+            tot = sum(parts)
+        elif how == "radd":
+            tot = 0 + parts[0]
+            for x in parts[1:]:
+                tot = tot + x
+        else:
+            tot = parts[0]
+            for x in parts[1:]:
+                tot = tot + x
+        return tot, (lambda o: {"counts": [int(x) for x in np.asarray(o.counts)],
+                                "by_label": [int(o[lab]) for lab in o.labels[:8]] == [int(x) for x in np.asarray(o.counts)[:8]],
+                                "dict_ok": [int(np.asarray(v)) for v in o.as_dict().values()] == [int(x) for x in np.asarray(o.counts)]})
     if op == "pwm":
         from bionumpy.sequence.position_weight_matrix import PWM
         alpha = c["alpha"]
-        m = np.array([[_unbits(b) for b in row] for row in c["matrix"]], dtype=float).T   # (letters, w)
-        r = get_motif_scores(_input(c, ascii_ok=True), PWM(m, alpha))
+        if c.get("build") == "dict":
+            d = {alpha[j]: [_unbits(row[j]) for row in c["probs"]] for j in range(len(alpha))}
+            bg = None if c.get("bg") is None else {alpha[j]: _unbits(c["bg"][j]) for j in range(len(alpha))}
+            pwm = PWM.from_dict(d, bg)
+        elif c.get("build") == "counts":
+            pwm = PWM.from_counts({alpha[j]: [row[j] for row in c["counts"]] for j in range(len(alpha))})
+        else:
+            m = np.array([[_unbits(b) for b in row] for row in c["matrix"]], dtype=float).T   # (letters, w)
+            pwm = PWM(m, alpha)
+        if pwm.alphabet != alpha:
+            raise AssertionError("alphabet")
+        if "seq_alpha" in c:
+            from bionumpy.encoded_array import as_encoded_array
+            seqs = as_encoded_array(_texts(c["seq_alpha"], c["rows"]), _enc(c["seq_alpha"]))
+            r = get_motif_scores(seqs, pwm)
+        else:
+            r = get_motif_scores(_input(c, ascii_ok=True), pwm)
         return r, (lambda o: {"rows": _ragged_out(o, flat, _bits)})
     if op == "count":
         r = count_kmers(_input(c), c["k"], axis=c["axis"])
@@ -247,8 +310,11 @@ def _call(c):
         h = ke.encode(texts if len(texts) != 1 or c.get("as_list") else texts[0])
 
         def canon_kenc(o):
+            from bionumpy.sequence.kmers import KmerEncoder
             hs = [int(x) for x in np.asarray(o.raw()).ravel()]
-            return {"codes": hs, "text": ke.to_string(np.asarray(hs, dtype=np.int64)).split(",") if hs else []}
+            inv = KmerEncoder(c["k"], _enc(alpha)).inverse(np.asarray(hs, dtype=np.int64)) if hs else []
+            return {"codes": hs, "text": ke.to_string(np.asarray(hs, dtype=np.int64)).split(",") if hs else [],
+                    "inverse": [[int(x) for x in np.asarray(row.raw()).ravel()] for row in inv]}
         return h, canon_kenc
     raise ValueError(op)
 
@@ -314,17 +380,46 @@ def oracle(c):
     alpha = c["alpha"]
     n = len(alpha)
     if op == "kenc":
-        return {"codes": [_code(n, km) for km in c["kmers"]], "text": _texts(alpha, c["kmers"])}
+        return {"codes": [_code(n, km) for km in c["kmers"]], "text": _texts(alpha, c["kmers"]),
+                "inverse": [list(km) for km in c["kmers"]]}
+    if op == "count_add":
+        k = c["k"]
+        if n ** k > 4096 or k > 8 or any(sum(len(r) for r in rows) < k for rows in c["parts"]):
+            return SKIP
+        cnt = [0] * (n ** k)
+        for rows in c["parts"]:
+            for r in rows:
+                for x in _wins(r, k):
+                    cnt[_code(n, x)] += 1
+        return {"counts": cnt, "by_label": True, "dict_ok": True}
+    if op in ("regex", "fixedregex"):
+        import re
+        rows = c["rows"]
+        rx = re.compile(_pattern_text(alpha, c["items"]))
+        texts = _texts(alpha, rows)
+        if op == "regex":
+            if sum(len(r) for r in rows) < 1:
+                return SKIP
+            return {"rows": [[rx.match(t[i:]) is not None for i in range(len(t))] for t in texts]}
+        w = len(c["items"])
+        if sum(len(r) for r in rows) < w:
+            return SKIP
+        return {"rows": [[rx.fullmatch(t[i:i + w]) is not None for i in range(len(t) - w + 1)] for t in texts]}
     rows = c["rows"]
     total = sum(len(r) for r in rows)
     w = {"kmers": c.get("k"), "minimizers": c.get("w"), "match": len(c.get("pat", [])), "match_same": len(c.get("pat", [])),
-         "pwm": len(c.get("matrix", [])), "count": c.get("k")}[op]
+         "pwm": len(c.get("matrix", [])), "pwm_old": len(c.get("matrix", [])), "count": c.get("k")}[op]
     if w < 1 or total < w:
         return SKIP
     if op == "match_same":   # one value per position: the windows that fit in the row, then False
         return {"rows": [[x == c["pat"] for x in _wins(r, w)] + [False] * (len(r) - max(0, len(r) - w + 1)) for r in rows]}
     if op in ("kmers", "minimizers", "count") and not (1 <= c["k"] <= 31):
         return SKIP
+    if op == "kmers" and c.get("via") == "ascii" and alpha == "ACGTN":
+        # plain text goes through DNAEncoding: anything but ACGT must be refused with an EncodingError
+        if any(x == 4 for r in rows for x in r):
+            return {"err": "encoding"}
+        n = 4
     if op == "kmers":
         k = c["k"]
         out = {"rows": [[_code(n, x) for x in _wins(r, k)] for r in rows]}
@@ -338,8 +433,10 @@ def oracle(c):
         return {"rows": [[min(_code(n, y) for y in _wins(x, k)) for x in _wins(r, w)] for r in rows]}
     if op == "match":
         return {"rows": [[x == c["pat"] for x in _wins(r, w)] for r in rows]}
-    if op == "pwm":
-        m = [[_unbits(b) for b in row] for row in c["matrix"]]
+    if op == "pwm" and c.get("seq_alpha", alpha)[:n] != alpha:
+        return {"err_any": True}      # sequences encoded over another alphabet: must be refused, never scored
+    if op in ("pwm", "pwm_old"):
+        m = _pwm_matrix(c)
         out = []
         for r in rows:
             o = []
@@ -367,6 +464,21 @@ def oracle(c):
     raise ValueError(op)
 
 
+def _log(x):
+    return float("-inf") if x == 0 else math.log(x)
+
+
+def _pwm_matrix(c):
+    """m[offset][letter]: given, or built as the package documents (log-likelihood ratio / add-one counts)"""
+    n = len(c["alpha"])
+    if c.get("build") == "dict":
+        bg = [1.0 / n] * n if c.get("bg") is None else [_unbits(b) for b in c["bg"]]
+        return [[_log(_unbits(row[j])) - _log(bg[j]) for j in range(n)] for row in c["probs"]]
+    if c.get("build") == "counts":
+        return [[math.log((row[j] + 1) / sum(x + 1 for x in row)) for j in range(n)] for row in c["counts"]]
+    return [[_unbits(b) for b in row] for row in c["matrix"]]
+
+
 def _close(a, b):
     if a == b:
         return True
@@ -386,6 +498,10 @@ def _agree_float_rows(got, exp):
 
 
 def agree(c, got, exp):
+    if isinstance(exp, dict) and exp.get("err_any"):
+        return isinstance(got, dict) and "err" in got
+    if c["op"] == "pwm_old":
+        return _agree_float_rows(got, exp)
     if c["op"] == "seq":
         g = got.get("results") if isinstance(got, dict) else None
         return isinstance(g, list) and len(g) == len(exp["results"]) and \
@@ -395,8 +511,16 @@ def agree(c, got, exp):
     return core.canon(got) == core.canon(exp)
 
 
+def agree_spec(c, sp, exp):
+    if c["op"] == "count_add":
+        return sp.get("counts") == exp.get("counts")
+    return core.canon(sp) == core.canon(exp)
+
+
 def agree_model(c, got, m):
-    if c["op"] == "pwm":
+    if c["op"] == "count_add":
+        return isinstance(got, dict) and got.get("counts") == m.get("counts")
+    if c["op"] in ("pwm", "pwm_old"):
         return _agree_float_rows(got, m)
     return core.canon(got) == core.canon(m)
 
@@ -407,9 +531,19 @@ def model_request(c):
         return None      # the Lean model is pure: a sequence of calls is the list of single calls (compared there)
     n = len(c["alpha"])
     k = c.get("k", 1)
+    if op == "kmers" and c.get("via") == "ascii" and c["alpha"] == "ACGTN":
+        return None      # text input with a foreign letter: the refusal is C06's model; judged against the oracle here
     if op in ("kmers", "minimizers", "count", "kenc") and n ** k > 2 ** 63:
+        return None
+    if op == "kenc" and not c["kmers"]:
         return None      # outside the model's stated int64 range: implementation vs exact oracle only
+    if op == "pwm" and c.get("seq_alpha", c["alpha"])[:n] != c["alpha"]:
+        return None
     r = dict(c)
+    if op == "pwm" and c.get("build"):
+        r["matrix"] = [[_bits(x) for x in row] for row in _pwm_matrix(c)]
+        for key in ("probs", "bg", "counts", "build"):
+            r.pop(key, None)
     r.pop("view", None)      # the model sees the selected rows
     r["alphabet"] = [ord(ch) for ch in c["alpha"]]
     r["n"] = n
@@ -435,6 +569,50 @@ def _matrix(rng, n, w):
             row.append(_bits(float("-inf") if r < 0.08 else (0.0 if r < 0.12 else math.log(rng.random() + 1e-3) - math.log(1.0 / n))))
         vals.append(row)
     return vals
+
+
+def _rand_items(rng, n, w, gaps):
+    """a pattern of w positions over letters 0..n-1: letters, classes, dots; optionally gaps (each preceded by a letter/class
+    and followed by at least one position, as the code's grammar requires)"""
+    items = []
+    for i in range(w):
+        r = rng.random()
+        if r < 0.55:
+            items.append([1, rng.randrange(n)])
+        elif r < 0.8 and n >= 2:
+            k = rng.randint(2, min(n, 3))
+            items.append([1] + sorted(rng.sample(range(n), k)))
+        else:
+            items.append([0])
+    if gaps and w >= 2:
+        out = []
+        for i, it in enumerate(items):
+            out.append(it)
+            if i < w - 1 and it[0] == 1 and rng.random() < 0.5:
+                a = rng.choice([0, 0, 1, 2])
+                out.append([2, a, a + rng.choice([0, 1, 2])])
+        items = out
+    return items
+
+
+def _regex_cases(rng, alpha, rows, w):
+    n = len(alpha)
+    if not alpha.isalpha() or not alpha.isupper():
+        return
+    for gaps in (False, True):
+        items = _rand_items(rng, n, w, gaps)
+        # make the pattern occur somewhere (also across a row border) half of the time
+        flatl = [x for r in rows for x in r]
+        fixed = [it for it in items if it[0] != 2]
+        if rng.random() < 0.6 and len(flatl) >= len(fixed) and not gaps:
+            i = rng.randrange(len(flatl) - len(fixed) + 1)
+            for it, x in zip(fixed, flatl[i:]):
+                if it[0] == 1 and x not in it[1:]:
+                    it[1] = x
+                    it[1:] = sorted(set(it[1:]))
+        yield {"op": "regex", "alpha": alpha, "rows": rows, "items": items}
+        if not gaps:
+            yield {"op": "fixedregex", "alpha": alpha, "rows": rows, "items": items}
 
 
 def _ops_for(rng, alpha, rows, w, big, shape="ragged"):
@@ -472,11 +650,20 @@ def _ops_for(rng, alpha, rows, w, big, shape="ragged"):
     for p in pats[: (4 if big else 3)]:
         yield dict(base, op="match", pat=p)
         if w <= 6 or rng.random() < 0.3:
-            yield dict(base, op="match_same", pat=p)
+            yield dict(base, op="match_same", pat=p, **({"ws": True} if rng.random() < 0.3 else {}))
         if alpha in ("ACGT", "ACGTN", "AB") and rng.random() < 0.3:
             yield dict(base, op="match", pat=p, via="ascii")
     if w <= 12:
         yield dict(base, op="pwm", matrix=_matrix(rng, n, w), **({"via": "ascii"} if rng.random() < 0.5 else {}))
+        if rng.random() < 0.4:
+            yield dict(base, op="pwm_old", matrix=_matrix(rng, n, w), **({"entry": "class"} if rng.random() < 0.5 else {}))
+    if shape != "flat" and w <= 6 and rng.random() < 0.6:
+        yield from _regex_cases(rng, alpha, rows, w)
+    if shape != "flat" and n ** w <= 4096 and w <= 8 and len(rows) >= 2 and rng.random() < 0.3:
+        cut = rng.randrange(1, len(rows))
+        parts = [rows[:cut], rows[cut:]]
+        if all(sum(len(r) for r in p) >= w for p in parts):
+            yield {"op": "count_add", "alpha": alpha, "k": w, "parts": parts, "how": rng.choice(["add", "sum", "radd"])}
 
 
 def _seq_pool(rng, n_cases):
@@ -533,7 +720,8 @@ def cases(tier, rng):
     # 0. call sequences (history) and fresh views as inputs
     yield from _sequences(rng, 1500 if big else 250)
     for c in _seq_pool(rng, 6000 if big else 1200):
-        yield _with_view(rng, c)
+        if "rows" in c:
+            yield _with_view(rng, c)
     # 0b. many rows (>= 17) in one call, plain and as views
     for _ in range(300 if big else 40):
         alpha = rng.choice(names)
@@ -543,7 +731,7 @@ def cases(tier, rng):
             continue
         for c in _ops_for(rng, alpha, _rand_rows(rng, len(alpha), lens), w, False):
             if rng.random() < 0.4:
-                yield c if rng.random() < 0.5 else _with_view(rng, c)
+                yield c if (rng.random() < 0.5 or "rows" not in c) else _with_view(rng, c)
     # 0c. codes >= 2^53 (a float detour would round them): 4 letters k >= 27, 5 letters k >= 23, amino acids k >= 13
     for alpha, ks in (("ACGT", (27, 28, 29, 30, 31)), ("ACTG", (27, 31)), ("ACGTN", (23, 24, 25, 26, 27)), ("ABCDE", (23, 27)),
                       (ALPHABETS["AMINO"], (13, 14))):
@@ -627,6 +815,32 @@ def cases(tier, rng):
         k = rng.choice([1, 2, 3, 5])
         if sum(lens) >= k:
             yield {"op": "kmers", "alpha": "ACGT", "rows": _rand_rows(rng, 4, lens), "k": k, "via": "ascii"}
+    # 3b. ASCII text with a letter that is not DNA: refused
+    for _ in range(60 if big else 12):
+        lens = [rng.choice([0, 1, 2, 3, 5]) for _ in range(rng.choice([1, 2, 3]))]
+        k = rng.choice([1, 2, 3])
+        if sum(lens) >= k:
+            yield {"op": "kmers", "alpha": "ACGTN", "rows": _rand_rows(rng, 5, lens), "k": k, "via": "ascii"}
+    # 3c. PWMs built by the package from probabilities / counts; already-encoded input whose alphabet merely starts with the PWM's
+    for _ in range(200 if big else 40):
+        alpha = rng.choice(["ACGT", "ACGT", "AB", "ABC"])
+        n = len(alpha)
+        w = rng.choice([1, 2, 3, 4])
+        lens = [rng.choice([0, 1, w - 1, w, w + 1, 6]) for _ in range(rng.choice([1, 2, 3]))]
+        if sum(lens) < w:
+            continue
+        rows = _rand_rows(rng, n, lens)
+        if rng.random() < 0.5:
+            probs = [[rng.choice([0.0, 0.1, 0.25, 0.5, 0.7, 1.0, rng.random()]) for _ in range(n)] for _ in range(w)]
+            bg = [rng.choice([0.25, 0.1, 0.5]) for _ in range(n)] if rng.random() < 0.5 else None
+            yield {"op": "pwm", "alpha": alpha, "rows": rows, "build": "dict", "probs": [[_bits(x) for x in r] for r in probs],
+                   "bg": None if bg is None else [_bits(x) for x in bg], "matrix": [[0] * n] * w}
+        else:
+            counts = [[rng.choice([0, 0, 1, 2, 5, 17]) for _ in range(n)] for _ in range(w)]
+            yield {"op": "pwm", "alpha": alpha, "rows": rows, "build": "counts", "counts": counts, "matrix": [[0] * n] * w}
+        if alpha == "ACGT":
+            yield {"op": "pwm", "alpha": alpha, "rows": rows, "matrix": _matrix(rng, n, w), "seq_alpha": "ACGTN"}
+            yield {"op": "pwm", "alpha": alpha, "rows": rows, "matrix": _matrix(rng, n, w), "seq_alpha": "ACTG"}
     # 4. every k 1..31 on both paths with boundary row lengths (k-1, k, k+1, 0, short last row)
     for k in range(1, 32):
         for alpha in (names if big else ["ACGT", "ACGTN", ALPHABETS["AMINO"], rng.choice(["ACTG", "AB", "ABC"])]):
@@ -668,12 +882,16 @@ def cases(tier, rng):
 
 
 def _w(c):
+    if c["op"] in ("regex", "fixedregex"):
+        return len(c["items"])
+    if c["op"] == "count_add":
+        return c["k"]
     return {"kmers": c.get("k"), "minimizers": c.get("w"), "match": len(c.get("pat", [])), "match_same": len(c.get("pat", [])),
-            "pwm": len(c.get("matrix", [])), "count": c.get("k"), "kenc": c.get("k")}[c["op"]]
+            "pwm_old": len(c.get("matrix", [])), "pwm": len(c.get("matrix", [])), "count": c.get("k"), "kenc": c.get("k")}[c["op"]]
 
 
 def nontrivial(c):
-    if c["op"] in ("kenc", "seq"):
+    if c["op"] in ("kenc", "seq", "count_add", "regex", "fixedregex"):
         return True
     w = _w(c)
     return w == 1 or len(c["rows"]) >= 2 or any(len(r) in (0, w - 1, w, w + 1) for r in c["rows"])
@@ -717,6 +935,13 @@ def finding_key(c, got, exp):
     n = len(c["alpha"])
     w = _w(c)
     err = isinstance(got, dict) and "err" in got
+    if op == "regex" and not err and isinstance(got, dict):
+        # marked only at positions whose window does not fit in the row?
+        g, e = got.get("rows", []), exp["rows"]
+        if len(g) == len(e) and all(len(a) == len(b) for a, b in zip(g, e)) and \
+                all((not x) or y or True for a, b in zip(g, e) for x, y in zip(a, b)) and \
+                all(y <= x for a, b in zip(g, e) for x, y in zip(a, b)):
+            return "regex:match-continues-into-the-next-row"
     if op in ("kmers", "minimizers", "kenc") and n ** c["k"] > 2 ** 63 and not err:
         if got.get("codes" if op == "kenc" else "rows") == _int64_expectation(c):
             return f"{op}:int64-overflow(|A|^k>2^63)"     # row-local, but the code itself wrapped
